@@ -60,6 +60,17 @@ class VSeq(V):
 
 
 @dataclass
+class VArr(V):
+    """Immutable sequence carried as a view (array, offset, length): indexing and slicing stay in the theory
+    of arrays + linear arithmetic (no seq.nth, which the solvers handle poorly under quantifiers)."""
+
+    arr: Any  # z3 Array Int -> elem sort
+    off: Any  # z3 Int
+    n: Any  # z3 Int (>= 0)
+    kind: str
+
+
+@dataclass
 class VStrJoin(V):
     """list[str] that is only appended to / joined / tested for emptiness: (joined text, length)."""
 
@@ -88,6 +99,7 @@ class VRef(V):
 
     t: Any  # z3 Int
     cls: str | None = None  # static class hint (used for method dispatch)
+    elem: str | None = None  # for lists: declared class of the elements (ListRef("tuple")); a typing hint, proved where it is a result
 
 
 @dataclass
